@@ -53,15 +53,19 @@ def alpha_rows(arr, rows):
     return sg, nn
 
 
-def make_QA(arr):
+def make_QA(arr, partial=False):
     """QuaternionArray refuses NaN rows at construction (norm > 0 test), as the repository's own
-    test does: build from valid rows, then punch the gaps"""
+    test does: build from valid rows, then punch the gaps (partial: a gap row has lost only one of its components)"""
     a = np.array(arr, dtype=float)
     mask = np.any(np.isnan(a), axis=1)
     tmp = a.copy()
     tmp[mask] = [1.0, 0.0, 0.0, 0.0]
     Q = QuaternionArray(tmp)
-    Q.array[mask] = np.nan
+    if partial:
+        for i in np.where(mask)[0]:
+            Q.array[i, i % 4] = np.nan
+    else:
+        Q.array[mask] = np.nan
     return Q
 
 
@@ -94,15 +98,15 @@ def replay_table(args):
                 t.fail("C12|%s|rows-differ|%s" % (name, cls), dict(case, got=got, want=want))
         # slerp_nan, both modes
         want = build(rows, r["sn"], [False] * n)
-        for inplace in (True, False):
+        for inplace, partial in ((True, False), (False, False)) + (((True, True),) if has_nan else ()):
             t.calls += 1
 
             def fn():
-                Q = make_QA(arr)
+                Q = make_QA(arr, partial=partial)
                 ret = Q.slerp_nan(inplace=inplace)
                 return np.array(Q.array) if inplace else np.array(ret)
             o = core.outcome(fn)
-            name = "slerp_nan[inplace=%s]" % inplace
+            name = "slerp_nan[inplace=%s]" % inplace + ("[gap rows with one NaN component]" if partial else "")
             if o[0] != "ok":
                 t.fail("C12|%s|raises-%s|%s" % (name, o[1], cls), dict(case, err=o[2]))
                 continue
